@@ -1,6 +1,9 @@
 //! Property workloads + monitors. One module per property (some share code).
 
 pub mod c01;
+pub mod c02;
+pub mod c06;
+pub mod c11;
 
 use crate::PropDef;
 
@@ -10,6 +13,27 @@ pub fn registry() -> Vec<PropDef> {
         tag: 1,
         case: c01::case,
         extra: Some(c01::sweep),
+        panic_is_violation: true,
+    },
+    PropDef {
+        id: "C02",
+        tag: 2,
+        case: c02::case,
+        extra: None,
+        panic_is_violation: true,
+    },
+    PropDef {
+        id: "C06",
+        tag: 6,
+        case: c06::case,
+        extra: Some(c06::golden),
+        panic_is_violation: true,
+    },
+    PropDef {
+        id: "C11",
+        tag: 11,
+        case: c11::case,
+        extra: None,
         panic_is_violation: true,
     }]
 }
